@@ -222,7 +222,7 @@ func (e *Env) index(x Val, i Val) Val {
 	switch x.K {
 	case KSlice:
 		et := x.T.Underlying().(*types.Slice).Elem()
-		idx := app("+", x.Sl[1], i.S)
+		idx := e.vc.ix(x.Sl[1], i.S)
 		if kindOf(et) == KStruct {
 			return e.pureLoadStruct(e.vc.elemPtr(et, x.Sl[0], idx), et)
 		}
@@ -469,6 +469,28 @@ func valsEqual(vc *VC, a, b Val) Term {
 		if b.K == KSlice {
 			return eq(b.Sl[0], "0")
 		}
+		// pointers to fields / elements / globals are never nil (their construction already
+		// carried the nil / bounds obligation)
+		if a.S == "" && a.Loc != nil && b.S == "0" {
+			return "false"
+		}
+		if b.S == "" && b.Loc != nil && a.S == "0" {
+			return "false"
+		}
+		if a.S == "" && b.S == "" && a.Loc != nil && b.Loc != nil && a.Loc.Kind == b.Loc.Kind {
+			switch a.Loc.Kind {
+			case LElem:
+				if types.Identical(a.Loc.T, b.Loc.T) {
+					return and(eq(a.Loc.Base, b.Loc.Base), eq(a.Loc.Idx, b.Loc.Idx))
+				}
+				return "false"
+			case LField:
+				if types.Identical(a.Loc.ST, b.Loc.ST) && a.Loc.Field == b.Loc.Field {
+					return eq(a.Loc.Base, b.Loc.Base)
+				}
+				return "false"
+			}
+		}
 		if a.S == "" || b.S == "" {
 			sfail("comparison of leaf pointers")
 		}
@@ -697,6 +719,9 @@ func (e *Env) evalCall(n *ECall) Val {
 			return boolVal(eq(x.Sl[0], "0"))
 		case KIface:
 			return boolVal(eq(x.If[0], "0"))
+		}
+		if x.K == KPtr && x.S == "" && x.Loc != nil {
+			return boolVal("false")
 		}
 		return boolVal(eq(x.S, "0"))
 	case "string":
